@@ -178,7 +178,8 @@ type MutexState struct {
 	epoch   uint32
 	held    bool
 	readers int
-	hbvc    vclock
+	hbvc    vclock // released by Unlock; acquired by Lock and RLock
+	hbrvc   vclock // released by RUnlock; acquired by Lock only (readers do not order each other)
 }
 
 type WGState struct {
@@ -676,6 +677,7 @@ func (e *Exec) apply(g *G) {
 		o.mu.held = true
 		if e.hb != nil {
 			e.hb.acquire(g.id, o.mu.hbvc)
+			e.hb.acquire(g.id, o.mu.hbrvc)
 		}
 		e.note(g, KLock, o.mu.id)
 	case KRLock:
@@ -995,6 +997,7 @@ func (m *MutexState) check(e *Exec) {
 		m.id = e.newObj()
 		m.held = false
 		m.readers = 0
+		m.hbvc, m.hbrvc = nil, nil // a mutex that outlives an execution (package level) starts afresh
 	}
 }
 
@@ -1027,6 +1030,7 @@ func MutexTryLock(m *MutexState) (handled, ok bool) {
 	m.held = true
 	if e.hb != nil {
 		e.hb.acquire(e.cur.id, m.hbvc)
+		e.hb.acquire(e.cur.id, m.hbrvc)
 	}
 	e.note(e.cur, KLock, m.id)
 	return true, true
@@ -1076,9 +1080,42 @@ func MutexRUnlock(m *MutexState) bool {
 	m.check(e)
 	m.readers--
 	if e.hb != nil {
-		m.hbvc = m.hbvc.join(e.hb.release(e.cur.id))
+		m.hbrvc = m.hbrvc.join(e.hb.release(e.cur.id))
 	}
 	return true
+}
+
+// OnceState carries the happens-before edge of a sync.Once: the completion of the
+// first call is ordered before the return of every call; calls that find the Once
+// done do not order each other (they only load a flag).
+type OnceState struct {
+	epoch uint32
+	hbvc  vclock
+}
+
+// OncePublish is called by the first caller when f has returned.
+func OncePublish(o *OnceState) {
+	e := ex
+	if e == nil || e.dead {
+		return
+	}
+	o.epoch = e.epoch
+	o.hbvc = nil
+	if e.hb != nil {
+		o.hbvc = e.hb.release(e.cur.id)
+	}
+}
+
+// OnceObserve is the fast path of Do: a scheduling point, and the acquire side.
+func OnceObserve(o *OnceState) {
+	e := ex
+	if e == nil || e.dead {
+		return
+	}
+	e.point(op{kind: KYield})
+	if e.hb != nil && o.epoch == e.epoch {
+		e.hb.acquire(e.cur.id, o.hbvc)
+	}
 }
 
 func WGAdd(w *WGState, d int) bool {
@@ -1090,7 +1127,7 @@ func WGAdd(w *WGState, d int) bool {
 		return true
 	}
 	if w.epoch != e.epoch {
-		w.epoch, w.id, w.n = e.epoch, e.newObj(), 0
+		w.epoch, w.id, w.n, w.hbvc = e.epoch, e.newObj(), 0, nil
 	}
 	w.n += d
 	if e.hb != nil && d < 0 {
@@ -1108,7 +1145,7 @@ func WGWait(w *WGState) bool {
 		return true
 	}
 	if w.epoch != e.epoch {
-		w.epoch, w.id, w.n = e.epoch, e.newObj(), 0
+		w.epoch, w.id, w.n, w.hbvc = e.epoch, e.newObj(), 0, nil
 	}
 	e.point(op{kind: KWgWait, wg: w})
 	return true
